@@ -11,6 +11,12 @@ From J5V.proofs Require Import CmpbOrderProofs.
 Import ListNotations.
 Local Open Scope N_scope.
 
+(* ---- the property at full strength over the order-parameterised model *)
+Definition C14_full_statement : Prop := full_statement.
+Theorem C14_full : C14_full_statement.
+Proof. exact full_statement_holds. Qed.
+Print Assumptions C14_full.
+
 (* ---- the accounting of the Go code's unordered iterations *)
 Theorem C14_order_sites_agree : order_sites_same_set = true.
 Proof. exact order_sites_agree. Qed.
